@@ -7,7 +7,10 @@ import (
 	"context"
 	"errors"
 	"fmt"
+	"io"
+	"os"
 	"strings"
+	"syscall"
 
 	mc "github.com/ddddddO/gtree/verifmc"
 )
@@ -30,6 +33,14 @@ func flavoured(name string, base error) error {
 		return fmt.Errorf("stream closed: %w (%w)", base, context.Canceled)
 	case "deadline-wrapped":
 		return fmt.Errorf("i/o timeout: %w (%w)", base, context.DeadlineExceeded)
+	case "closed-pipe":
+		// what a write to a pipe gives after the reader has gone (`| head`)
+		// (every flavour also wraps the harness's own sentinel, by which the oracles recognise the injected error)
+		return fmt.Errorf("%w (%w)", io.ErrClosedPipe, base)
+	case "epipe":
+		return &os.PathError{Op: "write", Path: "/dev/stdout", Err: fmt.Errorf("%w (%w)", syscall.EPIPE, base)}
+	case "eof":
+		return fmt.Errorf("%w (%w)", io.EOF, base)
 	}
 	return base
 }
